@@ -3,7 +3,8 @@ from .lifebase import run_life, replay_life, NH
 
 CL = {1: "pause decision after the hand is not 'break level or fewer players with chips than the minimum'",
       2: "two seated-in players have chips but the next hand was set up for fewer than two",
-      3: "everybody signalled (or the gate timed out) and two seated-in players have chips, yet no hand opened"}
+      3: "everybody signalled (or the gate timed out) and two seated-in players have chips, yet no hand opened",
+      4: "the level in force after UpdateBlind is not the level announced (a break that is dropped is a pause that never comes)"}
 
 
 def run(res, replay=None):
